@@ -1,34 +1,44 @@
 #!/usr/bin/env python3
 # must-fail corpus: every mutant of selftest/mutants.tsv must make the check of its property exit 1.
-import sys, subprocess, os
-only = sys.argv[1:] 
+# Works on scratch copies (a worktree of /repo's HEAD and a copy of /verif); /repo and /verif/evidence stay untouched.
+import sys, subprocess, os, shutil
+only = sys.argv[1:]
 env = {**os.environ, 'GOFLAGS': '-mod=mod', 'GOPROXY': 'off', 'GOSUMDB': 'off', 'GOTOOLCHAIN': 'local'}
-if subprocess.run(['git','-C','/repo','status','--porcelain'],capture_output=True,text=True).stdout.strip():
-    print("REFUSED: /repo has uncommitted changes (commit them first)"); sys.exit(4)
+WT='/tmp/selftestwt'; VC='/tmp/selftestverif'
+subprocess.run(['git','-C','/repo','worktree','remove','--force',WT],capture_output=True)
+shutil.rmtree(WT,ignore_errors=True); shutil.rmtree(VC,ignore_errors=True)
+subprocess.run(['git','-C','/repo','worktree','prune'])
+if subprocess.run(['git','-C','/repo','worktree','add','-f','--detach',WT,'HEAD'],capture_output=True).returncode!=0:
+    print('cannot create worktree'); sys.exit(3)
+subprocess.run(['rsync','-a','--exclude','.git','--exclude','replays','/verif/',VC+'/'])
 ok = bad = 0
-for ln in open('/verif/selftest/mutants.tsv'):
-    if ln.startswith('#') or not ln.strip():
-        continue
-    prop, f, old, new, note = ln.rstrip('\n').split('\t')
-    if only and prop not in only:
-        continue
-    old = old.encode().decode('unicode_escape'); new = new.encode().decode('unicode_escape')
-    p = '/repo/' + f
-    s = open(p).read()
-    if s.count(old) != 1:
-        print(f"SKIP {prop} {note}: pattern occurs {s.count(old)} times"); bad += 1; continue
-    open(p, 'w').write(s.replace(old, new))
-    try:
-        b = subprocess.run(['go', 'build', './...'], cwd='/repo', capture_output=True, text=True, env=env)
-        if b.returncode != 0:
-            print(f"SKIP {prop} {note}: does not compile"); bad += 1; continue
-        r = subprocess.run(['/verif/check', prop, 'quick'], capture_output=True, text=True, env=env)
-        obl = [l.strip() for l in r.stdout.split('\n') if l.startswith('  obligation')]
-        if r.returncode == 1:
-            ok += 1; print(f"KILLED   {prop} {note}: {obl[0][:110] if obl else ''}")
-        else:
-            bad += 1; print(f"SURVIVED {prop} {note}: exit {r.returncode}")
-    finally:
-        subprocess.run(['git', '-C', '/repo', 'checkout', '--', f])
+try:
+    for ln in open('/verif/selftest/mutants.tsv'):
+        if ln.startswith('#') or not ln.strip():
+            continue
+        prop, f, old, new, note = ln.rstrip('\n').split('\t')
+        if only and prop not in only:
+            continue
+        old = old.encode().decode('unicode_escape'); new = new.encode().decode('unicode_escape')
+        p = WT + '/' + f
+        s = open(p).read()
+        if s.count(old) != 1:
+            print(f"SKIP {prop} {note}: pattern occurs {s.count(old)} times", flush=True); bad += 1; continue
+        open(p, 'w').write(s.replace(old, new))
+        try:
+            b = subprocess.run(['go', 'build', './...'], cwd=WT, capture_output=True, text=True, env=env)
+            if b.returncode != 0:
+                print(f"SKIP {prop} {note}: does not compile", flush=True); bad += 1; continue
+            r = subprocess.run([VC+'/bin/vcheck','-verif',VC,'-root',WT,'-prop',prop,'-tier','quick','-no-replay'], capture_output=True, text=True, env=env, cwd=VC)
+            obl = [l.strip() for l in r.stdout.split('\n') if l.startswith('  obligation')]
+            if r.returncode == 1:
+                ok += 1; print(f"KILLED   {prop} {note}: {obl[0][:110] if obl else ''}", flush=True)
+            else:
+                bad += 1; print(f"SURVIVED {prop} {note}: exit {r.returncode}", flush=True)
+        finally:
+            subprocess.run(['git', '-C', WT, 'checkout', '--', '.'])
+finally:
+    subprocess.run(['git','-C','/repo','worktree','remove','--force',WT],capture_output=True)
+    shutil.rmtree(VC,ignore_errors=True)
 print(f"{ok} killed, {bad} survived/skipped")
 sys.exit(1 if bad else 0)
